@@ -253,7 +253,7 @@ theorem needsSep_sound (a b rest : Str) (ca cb : Cls) (ha : classify a = some ca
         have h3 := hn.2
         have : y ≠ x := by
           rcases h3 with h3 | h3
-          · simp only [Bool.or_eq_false_iff, decide_eq_false_iff_not] at h3
+          · simp only [decide_eq_false_iff_not] at h3
             rcases hq with h | h
             · exact absurd h h3.1
             · exact absurd h h3.2
